@@ -162,15 +162,13 @@ def run(ctx, rep):
     for phase, n in (('Detect', 3), ('Build', 4)):
         pf = prog.fn('libcnb::runtime::%sArgs::parse' % phase)
         rep.analysed(pf)
-        oks = [d[1] for d in pf.whole_defs(0) if d[0] == 'stmt' and d[3]['r'] == 'agg' and d[3].get('variant') == 'Ok']
-        good = bool(oks)
-        for bi in oks:
-            eq = [cd for cd in conditions(pf, bi, sl) if cd.kind == 'bool' and cd.outcome is True and cd.value[0] == 'bin' and cd.value[1] == 'Eq'
-                  and strip(cd.value[3]) == ('const', n) and strip(cd.value[2])[0] == 'un' and strip(cd.value[2])[1] == 'PtrMetadata'
-                  and strip(strip(cd.value[2])[2])[0] == 'param']
-            good = good and bool(eq)
+        # `Ok => len(args) == n` on the interval of len(args) over every way parse returns Ok: length comparisons, slice
+        # patterns, split_first / first / get being Some, slice -> array conversions being Ok, and private (const-generic)
+        # helpers returning Some / Ok, all in parse's terms
+        rng = H.LenFacts(prog, sl).fn_success(pf, 0) if pf.argc == 1 else H.FULL
+        good = rng == (n, n)
         rep.check(good, 'R3', 'arity/' + phase, w(pf), '%sArgs::parse succeeds only for exactly %d arguments' % (phase, n),
-                  '%sArgs::parse can succeed for an argument count other than %d' % (phase, n))
+                  '%sArgs::parse can succeed for an argument count other than %d (counts %s..%s)' % (phase, n, rng[0], rng[1]))
     # Every exit the runtime can perform outside the phases either carries a constant error code or forwards the phase
     # result.  Exits are taken from the interprocedural MAY effects of libcnb_runtime (so an exit moved into a private
     # gate function or into a handler closure is the same exit), and the exit value is decomposed into an arm table:
@@ -361,7 +359,9 @@ def run(ctx, rep):
             rep.unproven('R4', 'detect/arm/' + arm, where, 'success outcome on unrecognised arm returning ' + vstr(v)[:80])
     rep.check(seen == {'Fail', 'Pass'}, 'R4', 'detect/arms', w(rd), 'outcomes for Fail and Pass', 'detect outcomes cover arms %s' % sorted(seen))
     # ---- R4 build table ----------------------------------------------------------------------------------
-    outs = outcomes(E, rb)
+    # write_all is part of the vocabulary here: `File::create(p).and_then(|mut f| f.write_all(d))` is `fs::write(p, d)`
+    E2 = Effects(prog, sl, vocab=H.WRITE_DATA)
+    outs = outcomes(E2, rb)
     rep.check(len(outs) >= 1 and all(strip(o.value) == ('agg', 'std::result::Result', 'Ok', (('0', ('const', 0)),)) for o in outs), 'R4', 'build/code', w(rb),
               'build success => Ok(0)', 'build success values: %s' % [vstr(o.value)[:40] for o in outs])
     for o in outs[:1]:
@@ -414,23 +414,27 @@ def run(ctx, rep):
             ok = (bool(some) or implied) and data_ok and always and verdict(result_fates(prog, top.fn, top)) == 'ok'
             rep.check(ok, 'R4', 'build/' + fname, e.where(), '%s written iff result.%s is Some, error propagated' % (fname, fld),
                       '%s: guarded_by_Some(%s)=%s data_from_result=%s always_on_Some=%s' % (fname, fld, bool(some) or implied, data_ok, always))
-        sb = [e for e in o.must if e.kind == 'WRITE' and e.forall is not None and strip(e.path)[0] == 'call' and strip(e.path)[1] == SBOM_PATH]
+        # every SBOM of result.<fld> is written: FORALL write effects on every path to success — of a loop, an iterator
+        # consumer, or a loop nest whose outer loop ranges over a literal table of (collection, name, ..) rows (unrolled)
+        must_all = list(o.must) + H.nested_must(E2, rb, [site.bb])
+        sb = [e for e in must_all if e.kind == 'WRITE' and e.forall is not None and strip(e.path)[0] == 'call' and strip(e.path)[1] == SBOM_PATH]
         got = {}
         for e in sb:
             pv = strip(e.path)
             kind = strip(pv[2][2])
-            coll = strip(e.forall)
+            coll = H.same_elements(e.forall)
+            data, dw = H.written_data(e, must_all)
             c1, p1 = L.loop_element(pv[2][0])
-            c2, p2 = L.loop_element(e.args[1])
-            fld = coll[2] if coll[0] == 'field' else (strip(coll[1])[2] if coll[0] == 'variant' else vstr(coll)[:30])
+            c2, p2 = L.loop_element(data) if data is not None else (None, None)
             fldname = None
             for x in walk(coll):
                 if x[0] == 'field' and x[2] in ('build_sboms', 'launch_sboms'):
                     fldname = x[2]
-            shape = c1 == coll and p1 == ('format',) and c2 == coll and p2 == ('data',) and ld(pv[2][1])
-            got[fldname] = (kind[1] if kind[0] == 'const' else vstr(kind), shape, e)
+            shape = c1 == coll and p1 == ('format',) and c2 == coll and p2 == ('data',) and ld(pv[2][1]) and res_field(coll, fldname, exact=True)
+            kept = verdict(result_fates(prog, e.call.fn, e.call)) == 'ok' and (dw is None or verdict(result_fates(prog, dw.call.fn, dw.call)) == 'ok')
+            got.setdefault(fldname, []).append((kind[1] if kind[0] == 'const' else vstr(kind), shape, e, kept))
         for fld, base in (('build_sboms', 'build'), ('launch_sboms', 'launch')):
-            g = got.get(fld)
-            ok = g is not None and g[0] == base and g[1] and verdict(result_fates(prog, g[2].call.fn, g[2].call)) == 'ok'
-            rep.check(ok, 'R4', 'build/sbom/' + fld, g[2].where() if g else w(rb), 'every %s element written to the "%s" SBOM path of its format' % (fld, base),
-                      '%s are written as %s' % (fld, (g[0], g[1]) if g else 'nothing on every path'))
+            gs = got.get(fld, [])
+            ok = bool(gs) and all(g[0] == base and g[1] and g[3] for g in gs)
+            rep.check(ok, 'R4', 'build/sbom/' + fld, gs[0][2].where() if gs else w(rb), 'every %s element written to the "%s" SBOM path of its format' % (fld, base),
+                      '%s are written as %s' % (fld, [(g[0], g[1], g[3]) for g in gs] if gs else 'nothing on every path'))
